@@ -78,7 +78,10 @@ type c12Ln struct {
 	cur  *c12Conn
 	gen  int // number of completed handshakes on this listener
 	upAt []time.Time
-	all  []*c12Conn
+	// outage: connections are accepted and closed at once, before the handshake
+	down      atomic.Bool
+	refusedAt []time.Time
+	all       []*c12Conn
 }
 
 type c12Conn struct {
@@ -138,6 +141,13 @@ func c12CTR(key, iv []byte) cipher.Stream {
 // server side of encryptedConn.handshake
 func (l *c12Ln) serve(c net.Conn) {
 	s := l.srv
+	if l.down.Load() {
+		l.mu.Lock()
+		l.refusedAt = append(l.refusedAt, time.Now())
+		l.mu.Unlock()
+		c.Close()
+		return
+	}
 	req := make([]byte, 256)
 	c.SetReadDeadline(time.Now().Add(5 * time.Second))
 	if _, err := io.ReadFull(c, req); err != nil {
